@@ -3,5 +3,4 @@ package main
 func factsTables(o *out, res, mgr pkgFiles)  {}
 func factsManager(o *out, mgr pkgFiles)      {}
 func factsClient(o *out, mgr pkgFiles)       {}
-func factsSuite(o *out, suite pkgFiles)      {}
 func factsDecoders(o *out, res pkgFiles)     {}
